@@ -102,7 +102,11 @@ fn gen_word_truth(r: &mut Rng) -> Truth {
 }
 
 pub fn generate(r: &mut Rng, contradictory: bool) -> Generated {
-    let n_classes = 2 + r.usize_below(9);
+    // A quarter of the sets are minimal: two to four classes with one piece
+    // of evidence each (plus what a packed class pushes onto its field), so
+    // that rounds in which only a single judgement moves actually occur.
+    let minimal = r.chance(1, 4);
+    let n_classes = if minimal { 2 + r.usize_below(3) } else { 2 + r.usize_below(9) };
     let mut truths: Vec<Truth> = Vec::new();
     for c in 0..n_classes {
         let t = if c == 0 || r.chance(1, 2) {
@@ -196,10 +200,10 @@ pub fn generate(r: &mut Rng, contradictory: bool) -> Generated {
             let j = r.usize_below(i);
             judgements.push((vs[i], Ev::Equal { other: vs[j] }));
         }
-        let n_ev = 1 + r.usize_below(5);
+        let n_ev = if minimal { 1 } else { 1 + r.usize_below(5) };
         for _ in 0..n_ev {
             let holder = *r.pick(&vars_of[c]);
-            let e = if r.chance(1, 8) {
+            let e = if !minimal && r.chance(1, 8) {
                 Ev::Any
             } else {
                 match truths[c].clone() {
@@ -246,9 +250,9 @@ pub fn generate(r: &mut Rng, contradictory: bool) -> Generated {
                         // Decided per class (even classes push words, odd
                         // ones may list their spans in any order: pushing
                         // looks at the first listed span).
-                        let pushes = c % 2 == 0;
+                        let pushes = minimal || c % 2 == 0;
                         if let Truth::Word { usage, .. } = truths[k0] {
-                            if pushes && r.chance(1, 2) && matches!(usage, WordUse::Address | WordUse::Bool | WordUse::SignedNumeric | WordUse::Selector | WordUse::Function) {
+                            if pushes && (minimal || r.chance(1, 2)) && matches!(usage, WordUse::Address | WordUse::Bool | WordUse::SignedNumeric | WordUse::Selector | WordUse::Function) {
                                 let pushed = Ev::word(Some(w0), usage);
                                 pushed_words += 1;
                                 emitted[k0].push(pushed.clone());
